@@ -232,6 +232,12 @@ func (s *Server) forwardToProxyAction(_ context.Context, req *model.Request) egr
 }
 
 func (s *Server) matchEgressRule(addr net.IP, domain string, rule *appctlpb.EgressRule) bool {
+	if addr == nil && domain != "" {
+		// An IP address literal sent as a domain name is matched by IP based rules.
+		if literal := parseIPLiteral(domain); literal != nil && s.matchEgressRule(literal, "", rule) {
+			return true
+		}
+	}
 	if addr != nil {
 		// IP based rule
 		for _, ipRange := range rule.GetIpRanges() {
